@@ -289,6 +289,12 @@ func readerPackets(wire []byte) []pktDesc {
 	return out
 }
 
+// headerOnly: WritePacket passes a packet whose header length is 8 on as a
+// HeaderOnlyPackage without looking at its data, unless it belongs to a response.
+func headerOnly(p pktDesc) bool {
+	return p.Length == 8 && p.Type != rc.BufResponse && p.Type != rc.BufNormal
+}
+
 // prescreen runs the case through the channel simulator (package level, real
 // PacketQueue): it tells whether a huge length will be requested from the queue
 // (allocation is measured then) and keeps requests above 2^27 away from a tree that
@@ -300,7 +306,7 @@ func prescreen(c chanCase) (maxN int, excluded bool) {
 	}
 	s := &sim{guard: treeUnsafe()}
 	for _, p := range ps {
-		if c.Level == "read" && p.Channel != 0 || p.Length == 8 {
+		if c.Level == "read" && p.Channel != 0 || headerOnly(p) {
 			continue
 		}
 		if pc := s.packet(p.Data, p.Status&1 != 0); pc != nil {
@@ -331,7 +337,11 @@ func runChanOnce(c chanCase) *vh.Failure {
 		vh.Label("excluded:request-above-2^27")
 		return nil
 	}
-	big := c.Big || maxN >= 1<<16
+	// Allocation is measured for every case at this level: a package that is still
+	// incomplete is parsed again from its start with every packet that arrives, so
+	// even a modest allocation by an announced count adds up.
+	_ = maxN
+	big := true
 
 	h := newHarness()
 	defer h.close()
@@ -625,8 +635,43 @@ func toDescs(ps []rc.Packet) []pktDesc {
 func genChan(level string) func(rt *rapid.T) chanCase {
 	return func(rt *rapid.T) chanCase {
 		c := chanCase{Level: level}
-		c.Shape = rapid.SampledFrom([]string{"valid", "mutated", "mutated", "hdr", "hdr", "arbitrary", "packsize", "packsize"}).Draw(rt, "shape")
+		c.Shape = rapid.SampledFrom([]string{"valid", "mutated", "mutated", "hdr", "hdr", "arbitrary", "packsize", "packsize", "trickle"}).Draw(rt, "shape")
 		switch c.Shape {
+		case "trickle":
+			// a package that announces many members (or bytes), one byte per packet:
+			// the channel parses it again from its start with every packet
+			kind := rapid.SampledFrom([]string{"rowfmt", "rowfmt2", "paramfmt", "paramfmt2", "orderby", "orderby2", "capability", "envchange", "eed", "curdeclare", "curdeclare3", "dynamic2", "row", "params"}).Draw(rt, "kind")
+			stream, offs, spans := encode(genValid(rt, kind))
+			var cand []rc.Span
+			for _, sp := range spans {
+				if (sp.Kind == "count" || sp.Kind == "length") && (sp.Len == 1 || sp.Len == 2 || sp.Len == 4) {
+					cand = append(cand, sp)
+				}
+			}
+			c.Mut = mutDesc{Mode: "span", Kind: kind, Tok: stream[0]}
+			if len(cand) > 0 {
+				sp := cand[rapid.IntRange(0, len(cand)-1).Draw(rt, "span")]
+				max := uint64(1)<<(8*uint(sp.Len)) - 1
+				v := rapid.SampledFrom([]uint64{max, max >> 1, max>>1 + 1, max - 1}).Draw(rt, "big")
+				if sp.Len == 4 {
+					v = rapid.SampledFrom([]uint64{1 << 20, 1 << 24, 1 << 27, 0xffff}).Draw(rt, "big4")
+					if treeUnsafe() && v > 1<<20 {
+						// every packet makes the tree allocate it again
+						v = 1 << 20
+					}
+				}
+				copy(stream[sp.Off:], putUint(sp.Len, v))
+				c.Mut.Span, c.Mut.Repl, c.Mut.Tok = sp.Kind, fmt.Sprintf("big%d", sp.Len), tokenAt(stream, offs, sp.Off)
+				c.Big = true
+			}
+			if len(stream) > 120 {
+				stream = stream[:120]
+			}
+			var cuts []int
+			for i := 1; i < len(stream); i++ {
+				cuts = append(cuts, i)
+			}
+			c.Packets = toDescs(rc.Packetise(stream, cuts, rc.BufResponse, 0))
 		case "arbitrary":
 			n := rapid.IntRange(1, 4).Draw(rt, "npackets")
 			for i := 0; i < n; i++ {
